@@ -324,6 +324,8 @@ RULES = [
 
 from . import shared
 RULES = RULES + shared.bundle('C06', ['carry', 'gate', 'restart', 'driver', 'values', 'stride'], ['details'])
+from .. import refs as _refs
+RULES = RULES + [_refs.ref_rule('C06')]
 
 
 def run(tier="quick", replay=None):
